@@ -159,6 +159,7 @@ pub fn run(args: &Args, reg: &Reg) -> bool {
     let (prop, step, rule) = match args.sub.as_str() {
         "c16" => ("C16", "magic", "element-level receivers declaring every subset of their trait's magic fields (FromDeriveInput 32, FromField 16, FromVariant 16, FromTypeParam 16, FromAttributes 2 subsets; generics plain / ast::Generics<GenericParam<inner receiver>> / Result / SpannedValue / WithOriginal; attrs plain or `with`; data / fields over (), syn types and inner FromVariant / FromField receivers; supports(..); 0..2 ordinary fields) on generated input elements: every struct style with 0..4 fields, enums with 0..4 variants of mixed style and discriminants, unions, generics with lifetimes / types / consts / where-clauses / attributed type params, every visibility form, foreign attributes; body attributes with injected mistakes; oracle: magic fields token-equal to the input parts, data/fields of the same kind and style with one entry per field/variant in order, failure iff an entry fails or union, one leaf per failing entry located by field name. Non-trivial: >=2 body entries, a failing case, or generics with a where-clause"),
         "c02-body" => ("C02", "body", "receivers of the magic batch whose `data` / `fields` members are converted by inner FromVariant / FromField receivers (and whose generics by inner FromTypeParam receivers): mistakes injected into the attributes of body fields and variants (missing attribute, unknown / repeated names, bad values) while the element's own attribute layer is clean or not; oracle: the attribute layer is reported alone when it has mistakes, otherwise one leaf per mistake in the body layer, named fields located by their name, a variant's own attributes before its fields; len() == leaf count"),
+        "c18-body" => ("C18", "body", "receivers of the magic batch reading the body through `ast::Data<inner FromVariant receiver, inner FromField receiver>` where the inner receivers declare their own `supports(..)`: elements whose body has 0..4 variants / fields of mixed style, several of them non-conforming at once; oracle: failure iff an entry does not conform (or carries another mistake), exactly one leaf per non-conforming variant, located, in source order; len() == leaf count. Non-trivial: >=2 body entries or a failing case"),
         "c08-forward" => ("C08", "forward", "receivers of the magic batch that declare an `attrs` field (forward_attrs bare or a list of names incl. multi-segment ones, plain or through a `with` converter, on every element-level trait, also as inner body receivers) on generated elements with 0..3 foreign attributes before and after the receiver's own attribute: the forwarded vector equals, token for token and in order, the input attributes selected by the declaration (all non-consumed ones when bare); everything else about the value is unaffected"),
         _ => ("C03", "body", "failing cases of the C16 generator: leaves inside body attributes spanned inside their item; body fields lacking the attribute and whole-element verdicts may be unspanned"),
     };
@@ -172,7 +173,7 @@ pub fn run(args: &Args, reg: &Reg) -> bool {
         .filter(|s| s.purpose.starts_with("c16"))
         .filter(|s| !fwd_only || s.magic.iter().any(|m| m.name == "attrs"))
         .filter(|s| {
-            args.sub != "c02-body"
+            (args.sub != "c02-body" && args.sub != "c18-body")
                 || s.magic.iter().any(|m| {
                     let inner = |r: Option<usize>| r.map(|x| x != usize::MAX).unwrap_or(false);
                     inner(m.field_recv) || inner(m.variant_recv)
